@@ -48,6 +48,23 @@ Theorem C07_snapshot_seq : forall ops o, ylegal (ops ++ [o]) ybuf_empty ->
 Proof. exact snapshot_seq_spec. Qed.
 Print Assumptions C07_snapshot_seq.
 
+(* Status of Set / SetWithFlags(k, v): an empty value is refused first (ErrCannotSetNilValue), then a key longer
+   than 65535 (ErrKeyTooLarge), then len k + len v above the entry limit (ErrEntryTooLarge) — all three without
+   any effect; otherwise the write is applied (WriteSeqNo moves, the value is readable) and the answer is
+   ErrTxnTooLarge iff the new Size exceeds the buffer limit — the write stays applied. *)
+Theorem C07_write_status : forall st k v f,
+  let r := snd (ystep st (XWrite k v f)) in
+  let st' := fst (ystep st (XWrite k v f)) in
+  let x := y_x st in
+  (is_tomb v = true -> r = 1%nat /\ st' = st) /\
+  (is_tomb v = false -> max_key_len < len_n k -> r = 5%nat /\ st' = st) /\
+  (is_tomb v = false -> len_n k <= max_key_len -> x_elim x < len_n k + len_n v -> r = 3%nat /\ st' = st) /\
+  (is_tomb v = false -> len_n k <= max_key_len -> len_n k + len_n v <= x_elim x ->
+     x_wseq (y_x st') = x_wseq x + 1 /\ buf_get (x_b (y_x st')) k = Some v /\
+     (r = 4%nat <-> x_blim x < x_size (y_x st')) /\ (r = 0%nat <-> x_size (y_x st') <= x_blim x)).
+Proof. exact write_status. Qed.
+Print Assumptions C07_write_status.
+
 (* ---------- non-vacuity ---------- *)
 Example dirty_example :
   let ops := [XStaging; XWrite [97] [1] []; XCheckpoint; XWrite [98] [2] []; XRevert 1; XStaging; XDelete [99] [];
